@@ -41,6 +41,7 @@ def mc_configs(quick: bool) -> List[Tuple[str, Dict[str, Any], bool]]:
         ("append || delete, lock grants everyone, CAS", b(LockKind="none", Prog=Raw("<- Prog_AppDel"), **cas), True),
         ("expire || delete-snapshot, grant-all, CAS, coarse clock", b(LockKind="none", Prog=Raw("<- Prog_ExpDs"), ClockMode="coarse", **cas), True),
         ("2 appenders, lease lock with lapses and heartbeats", b(LockKind="lease", ClockMode="coarse", MaxClock=3, Lease=1, **cas), True),
+        ("2 appenders, lease lock, acquisition may time out", b(LockKind="lease", ClockMode="coarse", MaxClock=3, Lease=1, FaultKinds={"locktimeout"}, **cas), True),
         ("[must fail] CAS keyed to an unvalidated second read", b(LockKind="none", Backend="s3cas", FixEtag=False), False),
         ("[must fail] grant-all lock without CAS", b(LockKind="none", Backend="s3plain"), False),
     ]
